@@ -23,13 +23,14 @@ def run(c):
 
     c.assumptions += [
         "unicode.IsLetter / unicode.IsDigit are parameters of the model (shipped per case as tables computed by the Go library)",
-        "resource exhaustion (memory/time of exponential snippet expansion) is outside the model: termination is proved, cost is not; the harness skips inputs whose static expansion bound exceeds its budget",
+        "cost: the number of nodes import expansion can add is bounded by maxExpandedNodes (proved for the model, C20_tree_size_bounded / C20_import_expansion_bounded; inputs that multiply the tree are part of every run, each call of Read is watched for a deadline and a heap cap); time and memory as such are not modelled",
         "the file system seen by `import` is a parameter of the model (files of the harness's own configuration directory); OS path errors (ENAMETOOLONG, EINVAL) are out of the model",
     ]
     return c.finish(
         rule="grammar-based configurations (directives, nested blocks, macros, snippets, imports of snippets and files with forward/backward/self references, "
         "env placeholders, quoting, escapes, comments, CR/LF, line continuation, BOM), deep nesting around the limit, byte-level mutations of those and raw strings over the "
-        "special alphabet; each input runs the real lexer/parser (watchdog + recover) and the Lean model; distinct = distinct op lines",
+        "special alphabet; snippets/files whose imports multiply the tree (self-doubling, chains, mutual recursion, the exact boundary of the node limit), "
+        "blocks 'closed' by a same-line macro/snippet declaration (hundreds of lines), macro references inside longer arguments (defined / undefined / value-less / defined later); each input runs the real lexer/parser (watchdog + recover) and the Lean model; distinct = distinct op lines",
         explanation="theorems for all character lists / all expressible trees; model tied to the code by differential runs on bytes; "
         "independent Go monitor for crash-freedom, output well-formedness and print/parse round trip",
         search=search,
